@@ -6,6 +6,6 @@ From LZ4V Require Import Base GenBlock BlockFormat CompressFast CompressFastTabl
 Theorem C10_fast : forall st, contract_stmt (fun src dstlen => compress_fast_list src st dstlen).
 Proof. exact fast_contract. Qed.
 Print Assumptions C10_fast.
-Theorem C10_hc : forall depth, 0 <= depth <= 131072 -> contract_stmt (fun src dstlen => compress_hc_list src depth dstlen).
+Theorem C10_hc : forall depth, 0 <= depth -> contract_stmt (fun src dstlen => compress_hc_list src depth dstlen).
 Proof. exact hc_contract. Qed.
 Print Assumptions C10_hc.
